@@ -2,12 +2,13 @@
    which order, with which Host header and TLS server name, including the retry after every
    target failed, and what it does to the resolution cache.
 
-   As the code is:  results come from the resolution cache, else from ResolveServer for the
-   server name of the request (its URL host AT ENTRY); the targets are tried in order; if all
-   fail the cache entry is deleted and, once, the loop is entered again.  On that second pass
-   the results already held are reused (they are not empty, so ResolveServer is not called
-   again within the same round trip); without well-known/SRV lookups the single direct target
-   is appended a second time.  No proofs in this file. *)
+   As the code is (after the repair of F95):  the targets of the first pass come from the
+   resolution cache, else from ResolveServer for the server name of the request (its URL host
+   AT ENTRY); they are tried in order; if all fail the cache entry is deleted and, once, the
+   name is RESOLVED AGAIN (the answers may have changed) and the new targets are tried.  A failed
+   second pass deletes the cache entry again.  Without well-known / SRV lookups both passes try
+   the single direct target.  Resolutions are numbered: [res n] is what the n-th call of
+   ResolveServer for this name gives.  No proofs in this file. *)
 From Verif Require Import Lib.Bytes Net.IpC16 Net.Resolve.
 Open Scope N_scope.
 
@@ -35,45 +36,64 @@ Fixpoint try_targets (blocked : target -> bool) (l : list target) (k : N)
       else ([(t, AOk)], k, true)
   end.
 
-(* the targets of the first pass and, should it fail, of the second *)
-Definition second_pass (well_known_srv : bool) (results : list target) : list target :=
-  if well_known_srv then results else results ++ results.
+(* one pass: the resolution it started with (None: targets from the cache / the direct target)
+   and what happened to its targets *)
+Record pass := { p_resolution : option nat; p_attempts : list (target * attempt_outcome) }.
 
 Record rt_result := {
-  rt_attempts : list (target * attempt_outcome);
+  rt_passes : list pass;
   rt_ok : bool;
-  rt_resolved : bool;                      (* ResolveServer was called *)
   rt_cache : option (list target);         (* resolution cache entry for the name afterwards *)
-  rt_k : N
+  rt_k : N;
+  rt_next : nat                            (* number of the next resolution *)
 }.
 
-(* [resolved] = what ResolveServer gives for the server name of the request *)
+Definition rt_attempts (r : rt_result) : list (target * attempt_outcome) :=
+  flat_map p_attempts (rt_passes r).
+
+Definition targets_of (o : outcome) : option (list target) :=
+  match o with Targets (x :: l) => Some (x :: l) | _ => None end.
+
 Definition round_trip (well_known_srv : bool) (blocked : target -> bool) (name : bytes)
-           (resolved : outcome) (cache : option (list target)) (k : N) : option rt_result :=
+           (res : nat -> outcome) (n : nat) (cache : option (list target)) (k : N) : rt_result :=
   let direct := [ {| t_dest := name; t_host := name; t_sni := name |} ] in
-  let from_cache := match cache with Some (x :: l) => Some (x :: l) | _ => None end in
-  let pick : option (list target * bool) :=
-    if well_known_srv then
-      match from_cache with
-      | Some r => Some (r, false)
-      | None => match resolved with
-                | Targets (x :: l) => Some (x :: l, true)
-                | _ => None
-                end
-      end
-    else Some (direct, false) in
-  match pick with
-  | None => None                                   (* error before any attempt *)
-  | Some (results, did_resolve) =>
-      let cache1 := if well_known_srv then Some results else cache in
-      let '(a1, k1, ok1) := try_targets blocked results k in
-      if ok1 then
-        Some {| rt_attempts := a1; rt_ok := true; rt_resolved := did_resolve; rt_cache := cache1; rt_k := k1 |}
-      else
-        let '(a2, k2, ok2) := try_targets blocked (second_pass well_known_srv results) k1 in
-        Some {| rt_attempts := a1 ++ a2; rt_ok := ok2; rt_resolved := did_resolve;
-                rt_cache := None; rt_k := k2 |}
-  end.
+  if well_known_srv then
+    (* first pass *)
+    let first : option (list target) * option nat * nat :=
+      match cache with
+      | Some (x :: l) => (Some (x :: l), None, n)
+      | _ => (targets_of (res n), Some n, S n)
+      end in
+    let '(t1, r1, n1) := first in
+    match t1 with
+    | None => (* ResolveServer failed: the error is returned, nothing is cached *)
+        {| rt_passes := [ {| p_resolution := r1; p_attempts := [] |} ]; rt_ok := false;
+           rt_cache := None; rt_k := k; rt_next := n1 |}
+    | Some l1 =>
+        let '(a1, k1, ok1) := try_targets blocked l1 k in
+        let p1 := {| p_resolution := r1; p_attempts := a1 |} in
+        if ok1 then
+          {| rt_passes := [p1]; rt_ok := true; rt_cache := Some l1; rt_k := k1; rt_next := n1 |}
+        else
+          (* cache entry deleted, the name is resolved again *)
+          match targets_of (res n1) with
+          | None =>
+              {| rt_passes := [p1; {| p_resolution := Some n1; p_attempts := [] |}]; rt_ok := false;
+                 rt_cache := None; rt_k := k1; rt_next := S n1 |}
+          | Some l2 =>
+              let '(a2, k2, ok2) := try_targets blocked l2 k1 in
+              {| rt_passes := [p1; {| p_resolution := Some n1; p_attempts := a2 |}]; rt_ok := ok2;
+                 rt_cache := if ok2 then Some l2 else None; rt_k := k2; rt_next := S n1 |}
+          end
+    end
+  else
+    let '(a1, k1, ok1) := try_targets blocked direct k in
+    let p1 := {| p_resolution := None; p_attempts := a1 |} in
+    if ok1 then {| rt_passes := [p1]; rt_ok := true; rt_cache := cache; rt_k := k1; rt_next := n |}
+    else
+      let '(a2, k2, ok2) := try_targets blocked direct k1 in
+      {| rt_passes := [p1; {| p_resolution := None; p_attempts := a2 |}]; rt_ok := ok2;
+         rt_cache := None; rt_k := k2; rt_next := n |}.
 
 (* ---------- the connections behind the attempts ----------
    Every dial of the transport - the federation attempts and, since the repair of F71, the
